@@ -4,12 +4,45 @@ import json
 props = [json.loads(l) for l in open('/verif/properties.jsonl')]
 ids = [p['id'] for p in props]
 
-CLAIMS = {
- 'C04': dict(
-   text="Static path analysis: every control-flow path of every dispatched handler (18 core, 10 module) is enumerated with closures inlined and checked for exactly-one-answer (B1), echoed request id (B2), matching response type (B3), error code as a function of the refusing guard (B4), purity of refusal paths (B5), answer to the requester only (B6) and a joined test before any use of the connection's session (J2). This covers all inputs and histories because the abstraction ignores concrete values.",
-   note="Decides the shape of the code on every path, not delivery: the network, protobuf codec and the Go type checker / go/cfg are trusted. Value-level facts (e.g. that a lookup returns the right name) are not decided here.",
-   technique="go/cfg path enumeration + typed event abstraction (custom static analyser)", ref="DESIGN.md §3 B, §4 C04"),
-}
+CLAIMS = {}
+T_PATH = "go/cfg path enumeration + typed event abstraction + provenance canonicalisation (custom static analyser)"
+def claim(pid, text, note, ref, technique=T_PATH):
+    CLAIMS[pid] = dict(text=text, note=note, ref=ref, technique=technique)
+
+claim('C01', "Structural necessary conditions of convergence, on every path of every handler: every accepted replicated change is followed by exactly one relay of its class and there is no relay without a change (C1); entity removal cascades to components (E4); the newcomer is registered before the snapshot is read and the snapshot/serialisers cover participants, entities (id, owner, flag, pose), components and both module states completely (C7); no failure result of a store operation is dropped (ERR).",
+      "Decides the per-path shape, not equality of accumulated views over histories (DESIGN §6). Trusted: Go type checker, go/cfg, protobuf codec.", "DESIGN.md §4 C01")
+claim('C02', "Every path of every handler and of Session.Broadcast/BroadcastTo: exactly one relay per accepted change, none on refusal (C1, B5); the sender argument is the acting participant and the relay goes to the own session (C2); Broadcast visits every member, skips exactly the sender, one SendMsg per other member, message encoded once (C3); decorators forward each call exactly once with unchanged arguments and result (A2).",
+      "Delivery by the network and membership 'throughout' a concurrent block are not decided; ordering is covered only as far as relays are pushed synchronously in handling order (see C09/C08 checks for channels).", "DESIGN.md §4 C02")
+claim('C03', "Provenance rules over all handlers: every relay and every session use starts from the connection's own session (J1) and is preceded by a joined test (J2); session and participant are assigned together (E9); modules are consulted only for joined connections, after the core handler (A1) and are re-bound to the given session on every join with state fetched from that session under distinct module names (J3); a refused request changes nothing (B5).",
+      "Noninterference of message streams between sessions and stale scheduler entries across a session switch are not decided (DESIGN §6).", "DESIGN.md §4 C03")
+claim('C04', "Every control-flow path of every dispatched handler (18 core kinds, 10 module kinds; dispatch totality A1) is enumerated with closures inlined and checked: exactly one answer then nil, or no answer with a decode/not-joined error (B1); echoed request id (B2); matching response type (B3); error code as a function of the refusing guard (B4); refusal paths free of state changes and relays (B5); answers only through the handler's own respond parameter (B6); joined test before any use of the connection's session (J2); decorators forward unchanged (A2).",
+      "Decides the shape of the code on every path (hence all inputs and histories that can steer a branch), not delivery. Trusted: type checker, go/cfg, protobuf codec.", "DESIGN.md §3 B, §4 C04")
+claim('C05', "Dominance/provenance: every path that deletes an entity, changes its pose or attaches an asset passes the comparison of that very entity's creator id with the acting participant's id, the entity being looked up in the caller's own session by the request's id (D1); refusals change nothing (B5); participant and entity ids are never released for reuse (D3: the only Reuse call sites are session ids and frame-handler ids).",
+      "Counter wrap-around at 2^32 is not decided.", "DESIGN.md §4 C05")
+claim('C06', "Every path of the leave function: modules told, subscriptions dropped, own entity ids walked, removal exactly for existing non-persistent entities with component cascade and relay, frame callback unregistered before removal, leaver removed, emptiness test after removal, both connection fields cleared (E1, E4, E6, E9); who may call it and that disconnect reaches it (E2); sibling agreement of vikja/odal cleanup on the persist predicate (E3); decorators forward HandleDisconnect (A2); relays of both classes (C1); survivors are serialised to later joiners (C7).",
+      "That every way a connection ends reaches HandleDisconnect exactly once is covered by the C08 check (E5).", "DESIGN.md §4 C06")
+claim('C07', "Structural part: the session is removed from the registry exactly on the empty outcome of the test that follows the leaver's removal; leave is called only from disconnect and join behind a participant test (E1, E2, E6).",
+      "Atomicity of lookup/add and remove/count/unregister across critical sections, the gauge value and goroutine termination are handled by the SSA-based rules when claimed; histories are not enumerated.", "DESIGN.md §4 C07")
+claim('C08', "No client message may panic a handler through an absent sub-message: every dereference of a pointer-to-message field, repo-wide and through helper functions, is dominated by a nil test or goes through a generated getter (G1); decorators forward receive/send/disconnect exactly once (A2).",
+      "Arithmetic panics in modules/dagaz (float to index), timing of the idle timeout are not decided (DESIGN §6).", "DESIGN.md §4 C08")
+claim('C10', "Write-site and path rules: SequentialIDGenerator.New returns either a key it has just deleted from the pool or the counter after exactly one increment, the counter and pool have no other writers, and ids are given back only for session ids and frame-handler ids (D3); the component-type registry is written only in AddType, pairwise, behind the name-lookup miss, with an id from the store's generator, and resolves both ways (D4).",
+      "Counter wrap-around is not decided. Lock discipline of the generator is part of the C09 check.", "DESIGN.md §4 C10")
+claim('C11', "Drop clauses and provenance on every path of the pose handler: unknown entity, foreign entity and missing pose lead to return with no change and no relay (B5, G1, D1); the relayed pose is the pose just stored for that entity, read back from the entity (C11-pose).",
+      "Order across frames, 'within a few frames', coalescing in the external scheduler and pending updates across join/switch/leave are timing facts and are not decided (DESIGN §6).", "DESIGN.md §4 C11")
+claim('C12', "Path contracts of the component store's own methods: Add stores only for a registered type and an absent key and a refused Add stores nothing; Update assigns only when present and a refused Update changes nothing; Delete removes exactly the key and reports its prior presence; DeleteByEntityID/List/ListAll visit every element (S-*); AddType idempotent and bijective (D4); entity removal cascades (E4); no failure result dropped by callers (ERR).",
+      "Agreement with a reference map over histories is the composition of these per-operation contracts and is not itself enumerated.", "DESIGN.md §4 C12")
+claim('C13', "Component relays sit inside Notify's callback for that component's own type id on the own session's store; updates go with BroadcastTo to exactly the callback's subscriber ids, adds/deletes to every other member (C5); never to the author (C2); Subscribe refuses unregistered types and records (type, participant), Unsubscribe/UnsubscribeByParticipant delete exactly that, Notify runs its callback once iff the type has subscribers and hands over every subscriber id (S-*).",
+      "Histories are not enumerated.", "DESIGN.md §4 C13")
+claim('C14', "Integer-interval reasoning on the size guard: a custom message is relayed exactly for body lengths 0..10240 and refused as too large exactly from 10241 (H1); the relayed body is the request's body field untouched, stamped with the sender's id, BroadcastTo with the request's ids iff any are named (H4); BroadcastTo resolves ids in its own session, skips the sender, serves each member once (C3, J6).",
+      "Byte equality on the wire relies on the protobuf codec (trusted).", "DESIGN.md §4 C14")
+claim('C16', "Comparison normalisation: the only refusal for freshness is 'stored exists and new timestamp strictly before stored timestamp', everything else stores the request's action (H3); vikja state keyed by (entity id, name), odal state by entity id with a fresh instance id, both listed completely to newcomers (S-Actions, S-Assets, D5, C7); owner guard for assets (D1); module state is reused, never replaced, on later joins (J4); cleanup siblings agree (E3).",
+      "Concurrent writers of one key are not quantified by the property and not decided.", "DESIGN.md §4 C16")
+claim('C17', "For all 1024 subsets at once: flags and classes correspond by name (C4a); every emission site of a flagged class, repo-wide, is inside IfNotSet(<its flag>, literal) (C4b); such closures only build and emit that class (no state change, no answer, no write to captured variables) (C4c); the flag set is read nowhere else (C4d); IfNotSet/IfSet are the membership test and one call (C4e); flag arguments are declared constants (C4f).",
+      "Independence of flags follows from where the flag is read, for every history; nothing is executed.", "DESIGN.md §4 C17")
+claim('C18', "Preconditions and bindings of a measurement: Start is reached only for a joined participant, 3..50 rounds (integer interval from the guards) and a non-empty wallet, on the requester's own state, bound to the server key, responder, request id, session UUID, presented client id and wallet (H2, I2).",
+      "Numeric relations between min/mean/max/p95/last, ping-id uniqueness and ECDSA are not decided (DESIGN §6).", "DESIGN.md §4 C18")
+claim('C20', "One clause only: samples are shared per session and kept for as long as the session lives - every module's Init fetches its state from the given session under its own distinct name, creates it only when missing and never writes into an existing state on later joins (J3, J4).",
+      "Index completeness, bounds, plane count and all geometric primitives are floating-point statements this family cannot decide (DESIGN §6).", "DESIGN.md §4 C20")
 NA = {}
 
 checks = []
